@@ -32,6 +32,7 @@
 #include <vnadata.h>
 #include "vnacommon_internal.h"
 #include "vf.h"
+#include "calsim.h"
 #include "lin.h"
 
 typedef double complex dc;
@@ -71,13 +72,14 @@ static const char *fam_name[NFAM] = {
 };
 
 enum { P_LU, P_MLD, P_MRD, P_MINV, P_ZTOY, P_YTOZ, P_STOZ, P_ZTOS, P_STOY,
-       P_YTOS, P_QRSOLVE, P_QRSOLVE2, P_APPLY, P_SOLVE, P_ADD, NPATH };
+       P_YTOS, P_QRSOLVE, P_QRSOLVE2, P_APPLY, P_SOLVE, P_ADD, P_LSQ,
+       NPATH };
 static const char *path_name[NPATH] = {
     "_vnacommon_lu", "_vnacommon_mldivide", "_vnacommon_mrdivide",
     "_vnacommon_minverse", "vnaconv_ztoyn", "vnaconv_ytozn", "vnaconv_stozn",
     "vnaconv_ztosn", "vnaconv_stoyn", "vnaconv_ytosn", "_vnacommon_qrsolve",
     "_vnacommon_qr+qrsolve2", "vnacal_apply", "vnacal_new_solve",
-    "vnacal_new_add_*(a,b)"
+    "vnacal_new_add_*(a,b)", "vnacal_new_solve(noisy)"
 };
 
 /* kinds of system */
@@ -1822,6 +1824,114 @@ next:
 
 
 /* ------------------------------------------------------------------ */
+/* vnacal_new_solve on inconsistent data, every linear type and shape   */
+/* ------------------------------------------------------------------ */
+/*
+ * Standards of a calsim recipe measured with deterministic pseudo-noise:
+ * no exact solution exists.  The terms vnacal_new_solve stores must be the
+ * minimiser of the documented equations the standards contribute (and the
+ * outside leakage terms the mean of their cells): oracle/csterms.c,
+ * cs_terms_gradient.  E12 is solved as UE14 and converted (not linear in
+ * its terms): left out.
+ */
+static const vnacal_type_t lsq_types[7] = { VNACAL_T8, VNACAL_U8, VNACAL_TE10,
+    VNACAL_UE10, VNACAL_T16, VNACAL_U16, VNACAL_UE14 };
+static const int lsq_dims[4][2] = { {1,1}, {2,2}, {1,2}, {3,3} };
+#define LSQ_NREC 3
+#define LSQ_NEV 3
+#define LSQ_NAV 2
+#define LSQ_NNOISE 2
+static long lsq_count(int tier)
+{
+    return 7L * (tier ? 4 : 3) * LSQ_NREC * LSQ_NEV * LSQ_NAV * LSQ_NNOISE;
+}
+
+static void run_lsq(ctx_t *c, int tier, long idx)
+{
+    vf_result *r = c->r;
+    static cs_scenario sc;
+    static const double amp[LSQ_NNOISE] = { 1e-2, 1e-4 };
+    int nz = (int)(idx % LSQ_NNOISE); idx /= LSQ_NNOISE;
+    int av = (int)(idx % LSQ_NAV) * 3; idx /= LSQ_NAV;
+    int ev = (int)(idx % LSQ_NEV); idx /= LSQ_NEV;
+    int recipe = (int)(idx % LSQ_NREC); idx /= LSQ_NREC;
+    int nd = tier ? 4 : 3;
+    int d = (int)(idx % nd); idx /= nd;
+    vnacal_type_t type = lsq_types[idx];
+    int rows = lsq_dims[d][0], cols = lsq_dims[d][1];
+    const char *tn = vnacal_type_to_name(type);
+    vnacal_t *vcp = NULL;
+    vnacal_new_t *vnp = NULL;
+    long double margin, worst = 0, rnorm = 0, lworst = 0;
+    int eqs, unk, ci;
+    char desc[400], sig[100];
+
+    if (type == VNACAL_U8 || type == VNACAL_UE10 || type == VNACAL_U16 ||
+	    type == VNACAL_UE14) {
+	int x = rows; rows = cols; cols = x;
+    }
+    memset(&sc, 0, sizeof(sc));
+    cs_make_vna(&sc.vna, type, rows, cols, 2, 2);
+    if (cs_recipe(&sc, recipe, ev, av, 0, 2) != 0) {
+	++c->skipped;
+	return;
+    }
+    cs_describe(&sc, desc, sizeof(desc));
+    vf_desc(r, "inconsistent data (amplitude %g) ev=%d av=%d %s", amp[nz], ev,
+	    av, desc);
+    if (!cs_identifiable(&sc, (1u << sc.nstd) - 1u, &margin, &eqs, &unk) ||
+	    margin < 1e-2L) {
+	++c->skipped;
+	return;
+    }
+    sc.noise = amp[nz];
+    vf_errlog_reset(&apply_log);
+    vcp = vnacal_create((vnaerr_error_fn_t *)vf_errfn, &apply_log);
+    if (vcp == NULL || cs_make_params(vcp, &sc) != 0 ||
+	    (vnp = cs_build(vcp, &sc)) == NULL) {
+	vf_fail(r, "setup:lsq", "set-up failed: %s",
+		apply_log.count ? apply_log.msg[0] : "?");
+	goto out;
+    }
+    r->transitions += sc.nstd + 1;
+    if (vnacal_new_solve(vnp) != 0) {
+	snprintf(sig, sizeof(sig), "lsq-solve-failed:%s", tn);
+	vf_fail(r, sig, "vnacal_new_solve failed on a determining set "
+		"(margin %.2Le) measured with %g of noise: errno %d, %s",
+		margin, amp[nz], errno,
+		apply_log.count ? apply_log.msg[0] : "");
+	goto out;
+    }
+    ci = vnacal_add_calibration(vcp, "lsq", vnp);
+    if (ci < 0 || cs_terms_gradient(vcp, ci, &sc, &worst, &rnorm,
+		&lworst) != 0) {
+	vf_fail(r, "setup:lsq", "cannot inspect the solved terms");
+	goto out;
+    }
+    ++c->checked;
+    if (!(worst <= c->worst))
+	c->worst = worst;
+    if (!(lworst <= 1e-9L)) {
+	snprintf(sig, sizeof(sig), "lsq-leakage-not-mean:%s", tn);
+	vf_fail(r, sig, "an outside leakage term differs from the mean of "
+		"the measured cells without a signal path by %.3Le "
+		"(relative)", lworst);
+    } else if (rnorm > 1e-9L && !(worst <= 1e-7L)) {
+	snprintf(sig, sizeof(sig), "lsq-not-minimiser:%s", tn);
+	vf_fail(r, sig, "the solved terms are not the least-squares "
+		"minimiser of the documented equations: the residual "
+		"(size %.2Le of the terms) has cosine %.3Le with its "
+		"derivative by a free term (%d equations, %d unknowns)",
+		rnorm, worst, eqs, unk);
+    }
+out:
+    if (vnp != NULL)
+	vnacal_new_free(vnp);
+    if (vcp != NULL)
+	vnacal_free(vcp);
+}
+
+/* ------------------------------------------------------------------ */
 /* vnacal_new_add_*(a, b): a/b -> m reduction when standards are added */
 /* ------------------------------------------------------------------ */
 static int family_of_2x2(int tier, long *t)
@@ -2038,6 +2148,11 @@ static void build_cases(int tier)
 	add_cases(P_APPLY, -1, 2, 2, total);
 	add_cases(P_ADD, -1, 2, 2, total);
     }
+    for (long k = 0; k < lsq_count(tier); ++k) {
+	add_cases(P_LSQ, -3, 0, 0, 1);
+	cases[ncases - 1].first = k;
+	cases[ncases - 1].last = k + 1;
+    }
     for (int t = 0; t < 2; ++t)
 	for (int et = 0; et < NETERM; ++et)
 	    for (int sub = 0; sub < NSUBSET; ++sub) {
@@ -2066,8 +2181,11 @@ static void run(int tier, long idx, vf_result *r)
     vf_desc(r, "%s, family %s, %dx%d, systems %ld..%ld", path_name[cs->path],
 	    cs->fam >= 0 ? fam_name[cs->fam] : cs->fam == -2 ?
 	    "one-port standards: every subset of >= 3 of 5, every order" :
+	    cs->fam == -3 ? "recipes with noise" :
 	    "all 2x2 families", cs->m, cs->n, cs->first, cs->last - 1);
-    if (cs->path == P_SOLVE) {
+    if (cs->path == P_LSQ) {
+	run_lsq(&c, tier, cs->first);
+    } else if (cs->path == P_SOLVE) {
 	long t = cs->first;
 	int sub = (int)(t % NSUBSET); t /= NSUBSET;
 	int et = (int)(t % NETERM); t /= NETERM;
@@ -2102,13 +2220,13 @@ static void run(int tier, long idx, vf_result *r)
 	vf_note("STATS %s | %s | %dx%d | checked %ld skipped %ld singular %ld "
 		"worst %.2Le minsing %.2e", path_name[cs->path],
 		cs->fam >= 0 ? fam_name[cs->fam] : cs->fam == -2 ? "one-port" :
-		"2x2", cs->m, cs->n,
+		cs->fam == -3 ? "noisy" : "2x2", cs->m, cs->n,
 		c.checked, c.skipped, c.singular, c.worst, c.minsing);
     r->nontrivial = c.checked > 0 || c.singular > 0;
     r->states = c.checked + c.singular;
     vf_outcome(r, "%s %s worst%s%s%s", path_name[cs->path],
 	    cs->fam >= 0 ? fam_name[cs->fam] : cs->fam == -2 ? "one-port" :
-	    "2x2", decade(c.worst),
+	    cs->fam == -3 ? "noisy" : "2x2", decade(c.worst),
 	    c.skipped ? " some-skipped" : "", c.singular ? " singular" : "");
 }
 
